@@ -332,6 +332,19 @@ public:
         }
         p.ops.append(mkop(QStringLiteral("connect")));
         p.ops.append(mkop(QStringLiteral("pump"), { (qint64)r.chance(0.5) }, {}, (quint32)r.next()));
+        if (hist == 0 && mech.startsWith(QLatin1String("SCRAM")) && r.chance(0.3)) {
+            // a second login in the same process: same account (hence same salt and iteration count), but the server now
+            // offers another SCRAM variant (or the same one again)
+            static const char *variants[] = { "SCRAM-SHA-1", "SCRAM-SHA-256", "SCRAM-SHA-512", "SCRAM-SHA3-512" };
+            const QString second = QString::fromLatin1(variants[r.uniform(4)]);
+            k[QStringLiteral("relogin")] = 1;
+            s[QStringLiteral("mech2")] = second;
+            p.ops.append(mkop(QStringLiteral("disconnect")));
+            p.ops.append(mkop(QStringLiteral("pump")));
+            p.ops.append(mkop(QStringLiteral("prof"), {}, { s.contains(QStringLiteral("sasl2")) ? QStringLiteral("sasl2") : QStringLiteral("sasl1"), second }));
+            p.ops.append(mkop(QStringLiteral("connect")));
+            p.ops.append(mkop(QStringLiteral("pump"), { (qint64)r.chance(0.5) }, {}, (quint32)r.next()));
+        }
         return p;
     }
 
@@ -358,9 +371,22 @@ public:
                     }
                 }
             });
+            int sessionsBeforeRelogin = -1;
             for (const auto &op : plan.ops) {
-                w.applyCommon(op);
+                if (op.kind == QLatin1String("prof")) {
+                    sessionsBeforeRelogin = w.connectedSignals;
+                    w.server->profile.set(op.str(0), op.str(1));
+                } else {
+                    w.applyCommon(op);
+                }
                 w.afterStep();
+            }
+            if (sessionsBeforeRelogin >= 0) {
+                w.probe("second_login_same_account_same_salt");
+                if (sessionsBeforeRelogin == 1 && w.connectedSignals != 2 && w.server->conformance.isEmpty()) {
+                    w.violation(QStringLiteral("honest_exchange_failed"), QStringLiteral("C06:honest_exchange_did_not_authenticate:SCRAM:second_login"),
+                                QStringLiteral("the first login (%1) succeeded; the second login of the same account against the same honest server offering %2 did not").arg(plan.sknob(QStringLiteral("mech")), plan.sknob(QStringLiteral("mech2"))));
+                }
             }
             const QString quirk = plan.sknob(QStringLiteral("q.scram")) + plan.sknob(QStringLiteral("q.digest")) + plan.sknob(QStringLiteral("q.sasl"));
             const bool honest = quirk.isEmpty() && !otherSecret;
